@@ -26,7 +26,7 @@ TIME_CAP = {'quick': 300, 'thorough': 3600}
 REQUIRED_CLASSES = ['element', 'element-proportion>1', 'substance', 'material-number-fraction', 'material-mass-fraction',
                     'mass-density-given', 'number-density-given', 'with-volume', 'without-volume', 'natural', 'most-abundant',
                     'unit:kg/m3', 'unit:kg/l', 'unit:m-3', 'unit:1/l', 'unit:l', 'unit:m3', 'dict-form', 'string-form',
-                    'reread-after-in-place-conversion', 'composition-changed-by-add:existing', 'composition-changed-by-add:new',
+                    'reread-after-in-place-conversion', 'composition-changed-by-add:existing', 'composition-changed-by-add:new', 'composition-changed-inside-a-with-block',
                     'operand-of-a-sum-that-is-topped-up:right', 'operand-of-a-sum-that-is-topped-up:left']
 REQUIRED_MONITORS = ['mode_twin_tables', 'identity_checks', 'component_rows_checked', 'unit_twins_compared', 'inplace_conversion_rereads', 'add_after_construction_checks', 'table_hygiene_checks']
 ASSUMPTIONS = ['component masses m_i are those reported by data_components() / Element.component_mass (their correctness is C10)',
@@ -108,6 +108,9 @@ def amount_text(rng):
     r = rng.random()
     if r < 0.2:
         return '%d' % max(1, int(round(v)))
+    if r > 0.9:
+        # exponent notation without a decimal point in the mantissa (what repr() prints for small floats)
+        return rng.choice(['%de%+03d', '%de%d', '%dE%d']) % (rng.randint(1, 9), rng.choice([-2, -1, 1, 2]))
     t = ('%.4f' % v).rstrip('0')
     if t.endswith('.'):
         t += '0'
@@ -439,13 +442,19 @@ def _run_case(case, ctx):
             obj2 = build(ctx, case, *base_units)
             am1 = dict(am0)
             if what == 'existing':
-                obj2.add(k0, step)
                 am1[k0] = am0[k0] + step
             else:
-                obj2.add(newkey, step)
                 am1[newkey] = step
             case2 = dict(case, amount_override=am1)
-            o4 = observe(obj2, case2)
+            if len(fp) % 2:
+                # the documented idiom: the object as a context manager, changed and READ inside the block
+                classes.add('composition-changed-inside-a-with-block')
+                with obj2 as inside:
+                    inside.add(k0 if what == 'existing' else newkey, step)
+                    o4 = observe(inside, case2)
+            else:
+                obj2.add(k0 if what == 'existing' else newkey, step)
+                o4 = observe(obj2, case2)
             classes.add('composition-changed-by-add:' + what)
             mon['add_after_construction_checks'] = mon.get('add_after_construction_checks', 0) + 1
             for mech, detail in check_identities(case2, o4, T, devs, mon):
